@@ -165,7 +165,7 @@ func (d *Dumper) ValueLit(in any, optFns ...ValueLitOptFn) string {
 			elemType := d.ReflectTypeLit(rv.Elem().Type())
 			return fmt.Sprintf("func(v %s) *%s { return &v }(%s)", elemType, elemType, d.ValueLit(rv.Elem(), optFns...))
 		}
-		return fmt.Sprintf("&(%s)", d.ValueLit(rv.Elem(), optFns...))
+		return fmt.Sprintf("&(%s)", d.ValueLit(rv.Elem(), append(optFns, SubValue(false))...))
 	case reflect.Struct:
 		buf := bytes.NewBufferString(d.ReflectTypeLit(tpe))
 		buf.WriteString(`{`)
@@ -227,7 +227,7 @@ func (d *Dumper) ValueLit(in any, optFns ...ValueLitOptFn) string {
 
 			buf.WriteString(k)
 			buf.WriteString(":")
-			buf.WriteString(d.ValueLit(keyValues[k], optFns...))
+			buf.WriteString(d.ValueLit(keyValues[k], append(optFns, SubValue(false))...))
 			buf.WriteString(",")
 			buf.WriteString("\n")
 		}
